@@ -11,7 +11,9 @@ import (
 	"github.com/cosmos/iavl/verifcheck/vstore"
 )
 
-func bigTreeCosts(n int, order string) (checked int, fail string) { return bigTreeCostsStride(n, order, 1) }
+func bigTreeCosts(n int, order string) (checked int, fail string) {
+	return bigTreeCostsStride(n, order, 1)
+}
 
 // bigTreeCostsStride: stride > 1 checks the 96 smallest and 96 largest keys / gaps (the all-left and all-right
 // paths) and every stride-th position in between (tall trees: the read-cost bounds have their smallest slack on
